@@ -68,6 +68,10 @@ CLAIMS = {
   text="Static durability-discipline analysis of the persistent backends on all paths: every bolt mutation inside exactly one Update closure per operation whose commit error is returned, no no-sync option; persisted-schema agreement (every field read after decoding is written at every encoding site; fields exported/encodable); Metadata.Hash only ever computed from the object's bytes (violated by loadMeta's re-hash of the metadata filesystem — known finding F17); an object replaced only after the new content is complete (fs backends — known findings F14); no persist error dropped; command-line path flags reach the matching constructor; operations acknowledged only after close + saveMeta / commit.",
   note="trusted: bbolt's commit = fsync, afero, go/ssa. Known findings F14-*, F17. Not decided: what survives kill -9 on a real filesystem, BSON/JSON value round trips, mod-time tolerance, legacy databases.",
   tech="who-may-call / closure-context check (transaction discipline), schema writer⊇reader table, provenance slices with filesystem classes, checked-call dominance", ref="DESIGN.md §4 C15"),
+ "C16": dict(
+  text="Static analysis of the structure every path-style/virtual-host equivalence rests on (NOT the equality of the two responses, which relates runtime strings): Server() installs each host middleware under a test of its own option; the host middlewares change nothing of the request but URL.Path, build the new path from the Host-derived label and the unmodified incoming path only, forward exactly once, and the base middleware forwards the untouched request unless a suffix test against a configured base and a single-label test both succeed; outside Server(), the middlewares and the Location element of CompleteMultipartUpload no code reads the addressing options, Request.Host or the host-addressed mark, and nothing below routeBase re-reads the request path — every handler is addressing-mode independent and the (bucket, key) decision is taken once, from URL.Path stripped of slashes on both sides and split once; the request is marked host-addressed exactly where it is rewritten and the Location form follows that mark. Holds for all paths and call sites.",
+  note="trusted: go/ssa, may-flow provenance slices, net/http delivering Host and URL.Path as received. Not decided: equality of complete responses, string contents (ports, nested bases, empty labels, keys starting with '/'), CORS/time-skew interplay. Genuine defect found and repaired: F24 (Location form chosen from an option Server() overrides).",
+  tech="who-may-read/write (effect) analysis over the type-resolved program + provenance slices of the rewritten path + guard dominance in the host matcher + must-precede (mark agrees with rewrite) on SSA", ref="DESIGN.md §4 C16"),
  "C17": dict(
   text="Static decision of the bucket-name rule: create-bucket validates the very name it creates, obeys the validator, every rejection is InvalidBucketName (400); the validator's length guard accepts exactly 3..63 (guard structure evaluated for every length 0..100), with whole-name pattern, IP reject and a per-label test that cannot skip a label; the fs backend lists only validating directory entries; and LANGUAGE EQUALITY: the automaton of (length set ∧ pattern on the name ∧ pattern on every label, with regexp.MatchString's unanchored semantics) built from the regular-expression constant equals the automaton of the property's rules, by product construction over a representative alphabet for all lengths ≤ 65 (≈3k product states).",
   note="trusted: regexp/syntax's compiled program as the meaning of the pattern, the representative alphabet {a,m,z,0,5,9,-,.,A,_,/}; net.ParseIP is an uninterpreted atom on both sides. Not decided: ParseIP semantics, per-backend re-validation.",
@@ -75,7 +79,6 @@ CLAIMS = {
 }
 
 NOT_APPLICABLE = {
- "C16": "equivalence of complete responses under two request encodings is a relation between runtime strings; the only static shapes available (the two rewrite expressions agreeing, or matching a fixed form) would also fire on behaviour-preserving rewrites — brittle proxies, not necessary conditions (DESIGN.md §5). The sound structural fact (each middleware forwards the request exactly once) is checked under C09.",
 }
 
 NOT_BUILT = "not claimed yet: the rules planned for it in DESIGN.md §4 are not built; no check is registered (build in progress)"
